@@ -135,6 +135,9 @@ class _StateData:
     def __init__(self, wrapper: _State) -> None:
         self.name = wrapper.name
         self.duration_attr = f"{self.name}_duration"
+        # an untimed state may override an inherited timed state, whose
+        # duration tunable is still present on the class
+        self.timed = wrapper.duration is not None
         self.expires: float = 0xFFFFFFFF
         self.ran = False
         self.run = wrapper.run
@@ -639,8 +642,10 @@ class StateMachine:
             if initial_call:
                 state.ran = True
                 state.start_time = new_state_start
-                state.expires = new_state_start + getattr(
-                    self, state.duration_attr, 0xFFFFFFFF
+                state.expires = new_state_start + (
+                    getattr(self, state.duration_attr, 0xFFFFFFFF)
+                    if state.timed
+                    else 0xFFFFFFFF
                 )
 
                 if self.VERBOSE_LOGGING:
